@@ -127,7 +127,7 @@ Lemma decide_rc : forall b q ap,
   let ap1 := q_take (b_base b) q ++ ap in
   if b_ctl b then
     match b_recs b with
-    | [] => (q1, ap1, Raise)
+    | [] => (q1, ap1, Skip)
     | r :: _ => (q1, (if r_tag r =? 0 then ap_discard (b_pid b) ap1 else ap1), Skip)
     end
   else if b_txn b && ap_mem (b_pid b) ap1 then (q1, ap1, Skip) else (q1, ap1, Deliver).
@@ -135,7 +135,8 @@ Proof.
   intros. unfold decide, rc_block. rewrite (proj1 (consume_spec _ _)). cbn [fst snd].
   unfold contains_abort_marker, ABORT_TAG.
   destruct (b_ctl b) eqn:C.
-  - destruct (b_recs b) as [|r rs]; [reflexivity|].
+  - destruct (b_recs b) as [|r rs].
+    { destruct (b_txn b && ap_mem (b_pid b) (q_take (b_base b) q ++ ap)); cbn; rewrite ?C; reflexivity. }
     destruct (b_txn b && ap_mem (b_pid b)
                (if r_tag r =? 0 then ap_discard (b_pid b) (q_take (b_base b) q ++ ap)
                 else q_take (b_base b) q ++ ap)); cbn; rewrite ?C; reflexivity.
